@@ -1,26 +1,530 @@
 """C14 — pickling, deep copying and cloning preserve state and keep traits live."""
+import copy
+import json
+import os
+import pickle
+import sys
+
 from . import persistlib as PL
+from . import subserver as SUB
+from .seqlib import exc_name
 
 PROPERTY = "C14"
 DRIVER = "TraitsVerif/Driver/Persist.lean"
 PROPS_MODULES = ["TraitsVerif.Props.C14"]
 TRANSLATORS = ["ctables"]
-RULE = "wip"
-TRUSTED = []
-ASSUMPTIONS = []
+RULE = ("P: a HasTraits class is drawn from a menu of 25 trait declarations (Int/Str/CInt/Any, List/Dict/Set nested "
+        "up to depth 3, minlen/maxlen, Instance, ReadOnly, Event, validated Property; transient and copy=ref|shallow|"
+        "deep|None metadata), a history of 0-8 assignments, nested container mutations (by path) and aliasing "
+        "assignments reaches a state, then 1-2 copy operations (pickle protocols 0-5, copy.copy, copy.deepcopy, "
+        "clone_traits(copy=None|'shallow'|'deep')) are chained; model and real code print the copy's values with the "
+        "binding and sharing flag of every container node, the accept/reject result of an invalid and of a valid "
+        "item pushed into every (nested) container, which object got the items event, and ReadOnly re-assignment. "
+        "T: CTrait(kind) followed by set_validate/delegate/_set_property/post_setattr with in- and out-of-range "
+        "integers, then __getstate__ indices and __setstate__ round trip (real side in a subprocess). "
+        "#CT: every trait type of traits.api x options x {__getstate__/__setstate__, pickle 0/2/5, copy, deepcopy} x "
+        "{as_ctrait, class trait}, behaviour on 22 sample values compared before/after, in a subprocess (a crash is an "
+        "observation). #OBS: declared @observe / @on_trait_change / Property(observe=) / cached_property on the copy. "
+        "#G: Instance graphs (chain, shared child, parent cycle, dict of children). Non-trivial = produced "
+        "observations; distinct = distinct output line")
+TRUSTED = [
+    "pickle / copy.copy / copy.deepcopy drivers of CPython (memo, recursion through Instance references, "
+    "__reduce_ex__ protocol): modelled - a referenced object is a leaf `ref o g` whose copy is `ref o (g+1)`; the "
+    "graph behaviour is exercised by the #G oracle cases only",
+    "leaf validators are pure functions given to the model as a parameter (`Env.lv`); the driver instantiates Int, "
+    "Str, CInt, Instance",
+    "translator ctables.py (regex reader of ctraits.c, fails closed)",
+    "node identities: the model allocates from a counter; the harness compares only the derived sharing flag",
+]
+ASSUMPTIONS = [
+    "theorems assume Idem (a validated leaf is a fixed point of its validator), CopyStable (validity of a reference "
+    "does not depend on which copy it is) and WFObj (stored values are fixed points of their trait's validation: the "
+    "C01/C04 invariant)",
+    "no aliasing inside one value tree (the same container object reachable twice) - values are trees in the model",
+    "dict keys / set members do not collide after coercion (the generator never produces 3 and '3' for CInt keys)",
+    "delegates (DelegatesTo / PrototypedFrom) are covered by the #CT round trips only, not by the object model",
+    "hostile pickles / hand-made __setstate__ tuples are outside documented API use",
+    "dynamically added observers (obj.observe(...), on_trait_change at run time) are not expected on the copy; "
+    "declared ones are",
+]
+DISTINCT_BY_OUTPUT = True
+
+_SRV = [None]
+
+
+def _server():
+    if _SRV[0] is None:
+        import traits
+        scratch = os.path.dirname(os.path.dirname(os.path.abspath(traits.__file__)))
+        _SRV[0] = SUB.Server(scratch)
+    return _SRV[0]
+
+
+# --------------------------------------------------------------------------- cases
+
+CT_HOWS = ["getstate", "pickle0", "pickle2", "pickle5", "copy", "deepcopy"]
+COPY_OPS = PL.COPY_OPS
+
+
+def ct_names():
+    # static list (the child validates it against its catalogue)
+    return _CT_NAMES
+
+
+_CT_NAMES = None
+
+
+def _load_ct_names():
+    global _CT_NAMES
+    if _CT_NAMES is None:
+        cat, _, _ = SUB.ct_catalog()
+        _CT_NAMES = sorted(cat)
+    return _CT_NAMES
 
 
 def corpus():
-    return []
+    return [
+        # F3: validated Property's CTrait (segfault before ad5fa01)
+        '#CT {"name": "Property(Int)", "how": "getstate", "via": "class"}',
+        '#CT {"name": "Property(Int)", "how": "pickle2", "via": "class"}',
+        '#CT {"name": "Property(Int)", "how": "deepcopy", "via": "class"}',
+        "T|new 4;property 1 2 1 1",
+        # F14: copy.deepcopy shares the value of a trait without copy metadata
+        "P|x v 0 - A n|set x l 1 i 1|deepcopy",
+        # F15: detached container under Any is dropped by a deep clone
+        "P|x v 0 - A n;l v 0 d L 0 9 T 0 l 0|set l l 1 i 1;alias x l|pickle 2;clone d",
+        # F16: all traits transient => everything copied
+        "P|x v 1 - A n|set x i 3|clone n",
+        # nested re-binding
+        "P|ll v 0 d L 0 9 L 0 9 T 0 l 0;d v 0 - D 1 L 0 9 T 0 d 0|set ll l 2 l 1 i 1 l 0;add d 0 s a l 1 i 2|pickle 0",
+        "P|ll v 0 d L 0 9 L 0 9 T 0 l 0;r r 0 - A u|set ll l 1 l 1 i 1;set r i 4|clone d",
+        "#OBS deepcopy", "#OBS pickle 2", "#OBS clone d", "#G cycle deepcopy", "#G shared pickle 4",
+        # F17: a CTrait without __dict__
+        '#CT {"name": "raw:CTrait(0)", "how": "copy", "via": "as_ctrait"}',
+    ]
+
+
+def gen_T(rng, exhaustive):
+    out = []
+    if exhaustive:
+        for k in range(-2, 13):
+            out.append("T|new %d" % k)
+        for k in range(0, 9):
+            for v in range(-1, 27):
+                out.append("T|new %d;validate %d" % (k, v))
+            for p in range(-2, 6):
+                out.append("T|new %d;delegate %d" % (k, p))
+            for b in (0, 1):
+                out.append("T|new %d;post %d" % (k, b))
+        for g in range(-1, 5):
+            for s in range(-1, 5):
+                for v in range(-1, 5):
+                    for hv in (0, 1):
+                        out.append("T|new 4;property %d %d %d %d" % (g, s, v, hv))
+    return out
+
+
+def random_T(rng):
+    ops = ["new %d" % rng.choice([0, 1, 2, 3, 4, 5, 6, 7, 8, rng.randint(-3, 12)])]
+    for _ in range(rng.randint(1, 4)):
+        r = rng.random()
+        if r < 0.3:
+            ops.append("validate %d" % rng.randint(-1, 26))
+        elif r < 0.5:
+            ops.append("delegate %d" % rng.randint(-2, 5))
+        elif r < 0.8:
+            ops.append("property %d %d %d %d" % (rng.randint(-1, 4), rng.randint(-1, 4), rng.randint(-1, 4),
+                                                rng.randint(0, 1)))
+        else:
+            ops.append("post %d" % rng.randint(0, 1))
+    return "T|" + ";".join(ops)
 
 
 def generate(rng, tier):
-    n = {"quick": 1500, "thorough": 20000}.get(tier, 6000)
-    for _ in range(n):
+    names = _load_ct_names()
+    if tier == "quick":
+        nP, nT, ct_hows, vias = 1400, 150, ["getstate", "pickle2", "deepcopy"], ["class"]
+    elif tier == "thorough":
+        nP, nT, ct_hows, vias = 20000, 3000, CT_HOWS, ["as_ctrait", "class"]
+    else:
+        nP, nT, ct_hows, vias = 8000, 1000, CT_HOWS, ["as_ctrait", "class"]
+    # P: exhaustive small scope - every menu trait alone x every copy operation, set once
+    for name, kind, sh in PL.MENU:
+        for op in COPY_OPS if tier != "quick" else ["pickle 2", "copy", "deepcopy", "clone n", "clone s", "clone d"]:
+            natural = "d" if (sh[0] in ("L", "S") or sh == PL.N) else "-"
+            dv = PL.default_tok(sh) if kind != "r" else "u"
+            decl = "%s %s 0 %s %s %s" % (name, kind, natural if kind == "v" else "-", PL.shape_tok(sh), dv)
+            val = PL.gen_val(rng, sh, 0, True) if kind not in ("e", "r") else "i 4"
+            yield "P|%s|set %s %s|%s" % (decl, name, " ".join(val.split()), op)
+    for _ in range(nP):
         yield PL.gen_case(rng)
+    for c in gen_T(rng, True):
+        yield c
+    for _ in range(nT):
+        yield random_T(rng)
+    for nm in names:
+        for how in ct_hows:
+            for via in vias:
+                yield "#CT " + json.dumps({"name": nm, "how": how, "via": via}, sort_keys=True)
+    for op in COPY_OPS:
+        yield "#OBS " + op
+        for shape in ("chain", "shared", "cycle", "dict", "self"):
+            yield "#G %s %s" % (shape, op)
 
+
+# --------------------------------------------------------------------------- CT / T on the real code
+
+def ct_family(name):
+    if name.startswith("Property(") and name not in ("Property()", "Property(fget)", "Property(fget,fset)"):
+        return "validated-property"
+    if name.startswith("raw:"):
+        return "raw-ctrait-without-dict"
+    return name
+
+
+def run_ct(case):
+    spec = json.loads(case[4:])
+    ans = _server().request({"k": "CT", "spec": spec})
+    fam = ct_family(spec["name"])
+    hits, tags = [], ["CT:" + spec["how"], "CT-via:" + spec.get("via", "as_ctrait")]
+    if "crash" in ans:
+        hits.append({"signature": "ctrait-getstate-crash:" + fam,
+                     "what": "%s of the CTrait of %s killed the interpreter (%s)" % (
+                         spec["how"], spec["name"], SUB.crash_summary(ans)),
+                     "stderr_tail": ans.get("stderr", "")[-1200:], "no_shrink": True})
+        return "crash", hits, tags + ["CT:crash"]
+    if ans.get("skip"):
+        return "skip " + str(ans["skip"]), hits, tags + ["CT:skip"]
+    if ans.get("error"):
+        return "harness-exception " + ans["error"], hits, tags
+    out = "ok " + ans.get("roundtrip", "?")
+    if ans.get("roundtrip", "").startswith("raises"):
+        tags.append("CT:unpicklable")
+        if not ans.get("stage", "").startswith("pickle"):
+            hits.append({"signature": "ctrait-roundtrip-raises:%s:%s" % (fam, spec["how"]),
+                         "what": "%s of the CTrait of %s raised at %s: %s" % (spec["how"], spec["name"],
+                                                                            ans.get("stage"), ans["roundtrip"]),
+                         "no_shrink": True})
+        return out, hits, tags
+    if ans.get("broken"):
+        hits.append({"signature": "ctrait-roundtrip-broken:" + fam,
+                     "what": "the %s copy of the CTrait of %s is unusable: %s" % (spec["how"], spec["name"], ans["broken"]),
+                     "no_shrink": True})
+        return out + " broken", hits, tags
+    if not ans.get("idx_same", True):
+        hits.append({"signature": "ctrait-roundtrip-handlers-differ:" + fam,
+                     "what": "handler indices / flags differ after %s: %s" % (spec["how"], ans.get("idx")),
+                     "no_shrink": True})
+    if not ans.get("behaviour_same", True):
+        hits.append({"signature": "ctrait-roundtrip-behaviour-differs:" + fam,
+                     "what": "the restored trait of %s treats sample values differently: %s" % (
+                         spec["name"], ans.get("diff")), "no_shrink": True})
+    return out + (" same" if ans.get("behaviour_same") else " differs"), hits, tags
+
+
+def run_t(case):
+    ops = [o.strip() for o in case.split("|", 1)[1].split(";") if o.strip()]
+    ans = _server().request({"k": "T", "ops": ops})
+    tags = ["T:" + o.split()[0] for o in ops]
+    if "crash" in ans:
+        fam = "validated-property" if any(o.startswith("property") and o.endswith(" 1") for o in ops) else "T"
+        return "crash", [{"signature": "ctrait-getstate-crash:" + fam,
+                          "what": "CTrait built by [%s]: __getstate__/__setstate__ killed the interpreter (%s)" % (
+                              "; ".join(ops), SUB.crash_summary(ans)),
+                          "stderr_tail": ans.get("stderr", "")[-1200:]}], tags + ["T:crash"]
+    if ans.get("error"):
+        return "harness-exception " + ans["error"], [], tags
+    out = ans["out"]
+    hits = []
+    if out.startswith("idx") and not out.endswith("same"):
+        hits.append({"signature": "ctrait-roundtrip-handlers-differ:T", "what": "indices change across a round trip: " + out})
+    return out, hits, tags
+
+
+# --------------------------------------------------------------------------- #OBS
+
+_OBS = {}
+
+
+def obs_classes():
+    if _OBS:
+        return _OBS
+    from traits.api import (Any, HasTraits, Int, List, Property, Str, cached_property, observe, on_trait_change)
+    mod = sys.modules[__name__]
+
+    class Person(HasTraits):
+        name = Str()
+        scores = List(Int)
+        nested = List(List(Int))
+        total = Property(Int, observe="scores.items")
+        n_nested = Property(Int, depends_on="nested[]")
+        log = Any(transient=True)
+
+        def _log(self, what):
+            if self.log is None:
+                self.log = []
+            self.log.append(what)
+
+        @observe("name")
+        def _name_obs(self, event):
+            self._log(("observe:name", event.new))
+
+        @observe("scores.items")
+        def _scores_obs(self, event):
+            self._log(("observe:scores.items",))
+
+        @observe("nested.items.items")
+        def _nested_obs(self, event):
+            self._log(("observe:nested.items.items",))
+
+        @on_trait_change("scores[]")
+        def _scores_legacy(self):
+            self._log(("otc:scores[]",))
+
+        def _name_changed(self, old, new):
+            self._log(("static:name", new))
+
+        @cached_property
+        def _get_total(self):
+            return sum(self.scores)
+
+        @cached_property
+        def _get_n_nested(self):
+            return sum(len(x) for x in self.nested)
+    Person.__module__ = __name__
+    Person.__qualname__ = "Person"
+    setattr(mod, "Person", Person)
+    _OBS["Person"] = Person
+    return _OBS
+
+
+def run_obs(case):
+    op = case[5:].strip()
+    sig = PL.COPY_SIG[op if not op.startswith("pickle") else "pickle"]
+    Person = obs_classes()["Person"]
+    a = Person(name="a", scores=[1, 2], nested=[[1], [2, 3]])
+    assert a.total == 3 and a.n_nested == 3
+    hits = []
+    try:
+        c = PL.do_copy(a, op)
+    except Exception as e:
+        return "copyerr " + exc_name(e), [{"signature": "copy-raises:%s:%s" % (sig, exc_name(e)),
+                                           "what": "%s of an object with declared observers raised" % op}], ["OBS"]
+    a.log = []
+    c.log = []
+    res = []
+
+    def expect(label, cond, what):
+        res.append("%s=%s" % (label, "y" if cond else "n"))
+        if not cond:
+            hits.append({"signature": "observer-dead:%s:%s" % (label, sig), "what": what + " after " + op,
+                         "no_shrink": True})
+    expect("values", (c.name, list(c.scores), [list(x) for x in c.nested]) == ("a", [1, 2], [[1], [2, 3]]),
+           "values differ")
+    expect("cached-total", c.total == 3, "Property(observe=) value wrong on the copy")
+    c.name = "z"
+    expect("observe-name", ("observe:name", "z") in c.log, "@observe('name') did not fire on the copy")
+    expect("static-name", ("static:name", "z") in c.log, "_name_changed did not fire on the copy")
+    c.scores.append(4)
+    expect("observe-items", ("observe:scores.items",) in c.log, "@observe('scores.items') did not fire on the copy")
+    expect("otc-items", ("otc:scores[]",) in c.log, "@on_trait_change('scores[]') did not fire on the copy")
+    expect("property-observe", c.total == 7, "Property(observe='scores.items') is stale on the copy")
+    c.nested[1].append(9)
+    expect("observe-nested", ("observe:nested.items.items",) in c.log,
+           "@observe('nested.items.items') did not fire on the copy")
+    expect("property-depends-on", c.n_nested == 4, "Property(depends_on='nested[]') is stale on the copy")
+    c.scores = [10]
+    expect("property-observe-reassign", c.total == 10, "Property(observe=) stale after re-assignment on the copy")
+    expect("original-silent", not a.log, "handlers of the ORIGINAL fired when the copy was changed: %r" % (a.log,))
+    expect("original-values", (a.name, list(a.scores), a.total, a.n_nested) == ("a", [1, 2], 3, 3),
+           "the original changed when the copy was changed")
+    from traits.api import TraitError
+    try:
+        c.nested[0].append("bad")
+        ok = False
+    except TraitError:
+        ok = True
+    expect("nested-live", ok, "nested list of the copy accepted an invalid item")
+    return " ".join(res), hits, ["OBS", "OBS:" + sig]
+
+
+# --------------------------------------------------------------------------- #G
+
+_G = {}
+
+
+def graph_class():
+    if _G:
+        return _G["Tree"]
+    from traits.api import Dict, HasTraits, Instance, Int, List, Str, This
+    mod = sys.modules[__name__]
+
+    class Tree(HasTraits):
+        # every reference-holding trait says copy="deep" explicitly: `This` and `Dict` carry no copy metadata of
+        # their own, and copy.deepcopy() of a trait without it is finding F14 (covered by the P cases)
+        tag = Int()
+        data = List(Int)
+        kids = List(This(copy="deep"), copy="deep")
+        parent = This(copy="deep")
+        index = Dict(Str, This(copy="deep"), copy="deep")
+    Tree.__module__ = __name__
+    Tree.__qualname__ = "Tree"
+    setattr(mod, "Tree", Tree)
+    _G["Tree"] = Tree
+    return Tree
+
+
+def build_graph(shape):
+    Tree = graph_class()
+    root = Tree(tag=0, data=[1, 2])
+    if shape == "chain":
+        a = Tree(tag=1, data=[3])
+        b = Tree(tag=2, data=[4, 5])
+        root.kids = [a]
+        a.kids = [b]
+    elif shape == "shared":
+        a = Tree(tag=1, data=[3])
+        root.kids = [a, a]
+        root.index = {"x": a}
+    elif shape == "cycle":
+        a = Tree(tag=1, data=[3])
+        root.kids = [a]
+        a.parent = root
+    elif shape == "dict":
+        root.index = {"x": Tree(tag=1, data=[3]), "y": Tree(tag=2)}
+    elif shape == "self":
+        root.parent = root
+        root.kids = [root]
+    return root
+
+
+def graph_nodes(root):
+    """Pre-order walk: list of nodes in discovery order; edges as (src_idx, label, dst_idx)."""
+    order, index, edges = [], {}, []
+
+    def visit(n):
+        if id(n) in index:
+            return index[id(n)]
+        index[id(n)] = len(order)
+        me = len(order)
+        order.append(n)
+        for i, k in enumerate(n.kids):
+            edges.append((me, "kids%d" % i, visit(k)))
+        if n.parent is not None:
+            edges.append((me, "parent", visit(n.parent)))
+        for key in sorted(n.index):
+            edges.append((me, "index:" + key, visit(n.index[key])))
+        return me
+    visit(root)
+    return order, edges
+
+
+def run_g(case):
+    _, shape, op = case.split(" ", 2)
+    sig = PL.COPY_SIG[op if not op.startswith("pickle") else "pickle"]
+    from traits.api import TraitError
+    root = build_graph(shape)
+    hits = []
+    try:
+        c = PL.do_copy(root, op)
+    except Exception as e:
+        return "copyerr " + exc_name(e), [{"signature": "copy-raises:%s:%s" % (sig, exc_name(e)),
+                                           "what": "%s of an Instance graph (%s) raised %s" % (op, shape, e)}], ["G"]
+    o1, e1 = graph_nodes(root)
+    o2, e2 = graph_nodes(c)
+    res = []
+
+    def expect(label, cond, what):
+        res.append("%s=%s" % (label, "y" if cond else "n"))
+        if not cond:
+            hits.append({"signature": "graph:%s:%s:%s" % (label, sig, shape), "what": what + " after " + op,
+                         "no_shrink": True})
+    deep = sig in ("pickle", "deepcopy", "clone-deep")
+    if deep:
+        expect("shape", e1 == e2 and [n.tag for n in o1] == [n.tag for n in o2] and
+               [list(n.data) for n in o1] == [list(n.data) for n in o2],
+               "the copy is not isomorphic to the original (edges %r vs %r)" % (e1, e2))
+        ids1 = set(id(n) for n in o1)
+        expect("objects-disjoint", not any(id(n) in ids1 for n in o2), "an object of the copy is an object of the original")
+        conts1 = set()
+        for n in o1:
+            conts1.update(id(x) for x in (n.data, n.kids, n.index))
+        expect("containers-disjoint", not any(id(x) in conts1 for n in o2 for x in (n.data, n.kids, n.index)),
+               "a container of the copy is a container of the original")
+    else:
+        expect("root-values", (c.tag, list(c.data), len(c.kids), sorted(c.index)) ==
+               (root.tag, list(root.data), len(root.kids), sorted(root.index)), "root values differ")
+        expect("root-containers-fresh", not any(x is y for x, y in ((c.data, root.data), (c.kids, root.kids),
+                                                                   (c.index, root.index))),
+               "a declared container of the copy is the original's object")
+    # every node of the copy graph is live
+    live = True
+    owner_ok = True
+    for n in (o2 if deep else [c]):
+        try:
+            n.data.append("bad")
+            live = False
+        except TraitError:
+            pass
+        for cont in (n.data, n.kids, n.index):
+            if cont.object() is not n:
+                owner_ok = False
+    expect("live", live, "a data list in the copy graph accepted an invalid item")
+    expect("rebound", owner_ok, "a container in the copy graph is not bound to its own node")
+    return " ".join(res), hits, ["G", "G:" + shape, "G:" + sig]
+
+
+# --------------------------------------------------------------------------- engine API
 
 def run_impl(case):
     if case.startswith("P|"):
         return PL.run_p(case)
+    if case.startswith("T|"):
+        return run_t(case)
+    if case.startswith("#CT "):
+        return run_ct(case)
+    if case.startswith("#OBS "):
+        return run_obs(case)
+    if case.startswith("#G "):
+        return run_g(case)
     raise ValueError(case)
+
+
+def nontrivial(case, out):
+    return not (out.startswith("skip") or out.startswith("harness-exception") or out in ("", "bad-case"))
+
+
+def shrink(case, fails):
+    """ddmin over history ops, then over declarations, of a P case."""
+    if not case.startswith("P|"):
+        return case
+    _, decls, hist, copies = case.split("|")
+    ops = [o for o in hist.split(";") if o.strip()]
+    ds = [d for d in decls.split(";") if d.strip()]
+    cs = [c for c in copies.split(";") if c.strip()]
+
+    def mk(ds_, ops_, cs_):
+        return "P|%s|%s|%s" % (";".join(ds_), ";".join(ops_), ";".join(cs_))
+    changed = True
+    while changed:
+        changed = False
+        for i in range(len(ops) - 1, -1, -1):
+            cand = ops[:i] + ops[i + 1:]
+            if fails(mk(ds, cand, cs)):
+                ops, changed = cand, True
+        for i in range(len(ds) - 1, -1, -1):
+            if len(ds) == 1:
+                break
+            name = ds[i].split()[0]
+            if any(name in o.split()[1:3] for o in ops):
+                continue
+            cand = ds[:i] + ds[i + 1:]
+            if fails(mk(cand, ops, cs)):
+                ds, changed = cand, True
+        if len(cs) > 1:
+            for i in range(len(cs)):
+                cand = cs[:i] + cs[i + 1:]
+                if fails(mk(ds, ops, cand)):
+                    cs, changed = cand, True
+                    break
+    return mk(ds, ops, cs)
